@@ -20,10 +20,8 @@ func VerifC17Invalid() {
 	unseen[0], unseen[1] = 0xcc, 0x01
 	unseenMarked := false
 	accepted := []bool{true}
-	if verifParam("rich", 0) == 1 {
-		for range h.richState() {
-			accepted = append(accepted, true)
-		}
+	for n := h.setupState(); n > 0; n-- {
+		accepted = append(accepted, true)
 	}
 	for s := 0; s < steps; s++ {
 		op := pick(fmt.Sprintf("op%d", s), ops)
